@@ -277,6 +277,37 @@ def main(mode):
                     sql2.storage[nme] = (uri, set(md))
             if fail:
                 break
+        # directed: a removal that matches SEVERAL entries (prefix, regex), every statement of it as a failure point - a failure at the second or a later entry must
+        # not leave the earlier deletions behind (also not after reopening the database)
+        if not fail:
+            for how, kw in (("prefix", {"prefix": "grp."}), ("regex", {"regex": r"grp\..*"})):
+                path = os.path.join(tmp, "multi-%s.sqlite" % how)
+                ns = NS.NameServer(NS.SqlStorage(path))
+                for nme in ("grp.a", "grp.b", "grp.c", "grp.d", "other"):
+                    ns.register(nme, "PYRO:%s@h:1" % nme.replace(".", "_"), metadata={"t-" + nme})
+                before = full(ns)
+                for n in range(1, 40):
+                    runs += 1
+                    inj = FailingConnect(n)
+                    NS.sqlite3 = type("S", (), dict(vars(sqlite3), connect=inj))
+                    try:
+                        try:
+                            ns.remove(**kw)
+                        except Exception:      # noqa  (NamingError: the storage failed)
+                            pass
+                    finally:
+                        NS.sqlite3 = sqlite3
+                    if not inj.fired:
+                        break
+                    after = full(ns)
+                    reopened = full(NS.NameServer(NS.SqlStorage(path)))
+                    if after != before or reopened != before:
+                        fail = fail or {"operation": "remove(%s) matching four entries" % how, "failing_statement": n,
+                                        "violated": "a storage statement failed in the middle of the removal but the map changed: %d entries before, %d after, %d after reopening"
+                                                    % (len(before), len(after), len(reopened))}
+                        break
+                if fail:
+                    break
     finally:
         import shutil
         shutil.rmtree(tmp, ignore_errors=True)
